@@ -141,7 +141,12 @@ func runInstance(li mon.LintInfo, o *mon.Obj, inst any) mon.SD {
 // c11Words: what a string- or list-valued option of a certificate lint might plausibly take
 var c11Words = []string{"Organization", "CommonName", "Country", "OrganizationalUnit", "Locality", "Province", "StreetAddress", "PostalCode", "SerialNumber", "GivenName", "Surname", "EmailAddress",
 	"DomainComponent", "JurisdictionLocality", "JurisdictionProvince", "JurisdictionCountry", "O", "CN", "C", "OU", "L", "ST", "2.5.4.10", "2.5.4.3", "subject", "issuer", "dNSName", "*", "", "all", "none",
-	"e_ca_is_ca", "example.com", "US"}
+	"e_ca_is_ca", "example.com", "US",
+	// values that occur in the objects built below: an option that names attribute VALUES (an allow-list, an exemption)
+	// only acts when the document holds a value the object has
+	"PKI", "Operations", "Ben &amp; Jerry", c11LongOU, "Verif Test CA Org", "Example Org", "www.example.com", "Verif Issuing CA R1"}
+
+const c11LongOU = "Department of Redundancy Department, Division of Overly Long Organisational Unit Names"
 
 type section struct {
 	lint string
@@ -201,6 +206,13 @@ func c11Sections(cl cfgLint) []section {
 			add(f.Name+`="x" (ill-typed?)`, fmt.Sprintf("[%s]\n%s = \"x\"\n", n, f.Name))
 		}
 		add("lower-case key", fmt.Sprintf("[%s]\n%s = true\n", n, strings.ToLower(f.Name)))
+		// a TABLE where the option's value is expected: sub-table header, inline table, dotted key, array of tables
+		add(f.Name+" as a sub-table", fmt.Sprintf("[%s.%s]\nvalue = false\n", n, f.Name))
+		add(f.Name+" as an inline table", fmt.Sprintf("[%s]\n%s = { value = false }\n", n, f.Name))
+		add(f.Name+" as an empty inline table", fmt.Sprintf("[%s]\n%s = {}\n", n, f.Name))
+		add(f.Name+" through a dotted key", fmt.Sprintf("%s.%s.value = false\n", n, f.Name))
+		add(f.Name+" as an array of tables", fmt.Sprintf("[[%s.%s]]\nvalue = 1\n", n, f.Name))
+		add(f.Name+" as a nested sub-table", fmt.Sprintf("[%s.%s.deeper]\nvalue = 1\n", n, f.Name))
 	}
 	add("empty table", fmt.Sprintf("[%s]\n", n))
 	add("unknown key only", fmt.Sprintf("[%s]\nNoSuchOption = 1\n", n))
@@ -265,10 +277,18 @@ func c11Judge(c *mon.Ctx, o *mon.Obj, reg lint.Registry, doc string, base mon.Sn
 		c.R.Inconcl("generated document does not parse: " + err.Error())
 		return
 	}
+	before := mon.DigestExported(o.Parsed())
 	rs, pv, stack := o.Lint(reg)
 	c.R.Count("evaluations", 1)
 	in := inputs(o)
 	in["config.toml"] = []byte(doc)
+	if mon.DigestExported(o.Parsed()) != before {
+		// an option that makes a lint rewrite the linted object reaches every later lint and every later run
+		c.V("object-changed-under-configuration|"+o.Kind.String(), fmt.Sprintf("linting under a configuration changed exported fields of the linted %s (%s)", o.Kind, how), "", in, nil)
+		if fo := o.Reparse(); fo != nil {
+			*o = *fo
+		}
+	}
 	if pv != nil {
 		c.V("panic-under-configuration|"+o.Kind.String(), fmt.Sprintf("linting a %s panicked at the caller under a configuration (%s): %v at %s", o.Kind, how, pv, mon.PanicSite(stack)), "", in, map[string]any{"stack": stack})
 		return
@@ -337,6 +357,26 @@ func c11BuildObjs(c *mon.Ctx) {
 	ca := gen.SubCA(gen.D(2024, 3, 1))
 	ca.Subject = gen.Name(gen.A(gen.OIDC, "US"), gen.A(gen.OIDO, "Verif Test CA Org"), gen.A(gen.OIDOU, "PKI"), gen.A(gen.OIDCN, "Verif Issuing CA R1"))
 	addDER(corpus.Cert, "gen/cfg/ca-ou", ca.DER())
+	// several organisational units, one of them a value other lints object to (an HTML entity, more than 64 characters)
+	// in front of / behind a plain one, on a CA and on a subscriber certificate
+	for k, ous := range [][]string{{"Ben &amp; Jerry", "Operations"}, {"Operations", "Ben &amp; Jerry"}, {c11LongOU, "PKI"}, {"PKI", c11LongOU}, {"PKI", "Operations", "Ben &amp; Jerry"}} {
+		for t := 0; t < 2; t++ {
+			attrs := []gen.ATV{gen.A(gen.OIDC, "US"), gen.A(gen.OIDO, "Verif Test CA Org")}
+			for _, ou := range ous {
+				attrs = append(attrs, gen.A(gen.OIDOU, ou))
+			}
+			var sp *gen.Spec
+			if t == 0 {
+				sp = gen.SubCA(gen.D(2024, 3, 1))
+				attrs = append(attrs, gen.A(gen.OIDCN, "Verif Issuing CA R1"))
+			} else {
+				sp = gen.TLSLeaf(gen.D(2021, 3, 1), "www.example.com")
+				attrs = append(attrs, gen.A(gen.OIDCN, "www.example.com"))
+			}
+			sp.Subject = gen.Name(attrs...)
+			addDER(corpus.Cert, fmt.Sprintf("gen/cfg/ous%d-%d", k, t), sp.DER())
+		}
+	}
 	for _, days := range []int{5, 30, 200, 500} {
 		crl := gen.BasicCRL(gen.D(2024, 3, 1))
 		crl.NextUpdate = crl.ThisUpdate.Add(time.Duration(days) * 24 * time.Hour)
